@@ -16,8 +16,8 @@ Script *S;
 cocls::promise<void> pend[12];
 
 struct Guard { Guard() { dsim::cell_add(GUARD_CTOR, 1); } ~Guard() { dsim::cell_add(GUARD_DTOR, 1); } Guard(const Guard &) = delete; };
-cocls::future<void> pending(int k) { return [k](cocls::promise<void> p) { pend[k] = std::move(p); dsim::cell_set(PEND_READY + k, 1); }; }
-void complete(int k) { if (!dsim::cell_xchg(PEND_DONE + k, 1)) pend[k](); }
+cocls::future<void> pending(int k) { return [k](cocls::promise<void> p) { pend[k] = std::move(p); vs::cell_set_hb(PEND_READY + k, 1); }; }
+void complete(int k) { if (!dsim::cell_xchg(PEND_DONE + k, 1)) { (void)vs::cell_get_hb(PEND_READY + k); pend[k](); } }
 void complete_self_pending() { for (int k = 0; k < S->n; k++) if (S->kind[k] == AWAIT_SELF && dsim::cell_get(PEND_READY + k) && !dsim::cell_get(PEND_DONE + k)) complete(k); }
 
 cocls::generator<long> body() {
